@@ -635,7 +635,9 @@ class NetworkXPropertyGraph(ABCPropertyGraph, NetworkXMixin):
         # collect NodeID properties from self and other graph as set,
         # return an intersection
         self_ids = set(self.list_all_node_ids())
-        other_ids = self._collect_nodeids(self.storage.extract_graph(other_graph.graph_id))
+        # extract_graph returns None for a graph without nodes: nothing can match then
+        other_nx_graph = self.storage.extract_graph(other_graph.graph_id)
+        other_ids = self._collect_nodeids(other_nx_graph) if other_nx_graph is not None else set()
         return self_ids.intersection(other_ids)
 
     def merge_nodes(self, node_id: str, other_graph, merge_properties=None):
